@@ -2,7 +2,7 @@
 # usage: tools_confirm_seed.sh <worktree> <mutdir> ; confirms a seeded change: applies, builds, full suite passes, demo fails; reverted: demo passes
 wt="$1"; md="$2"
 cd "$wt" || exit 2
-git checkout -q -- . ; git clean -fdq -e out
+rm -rf out; git checkout -q -- . ; git clean -fdq
 place=$(head -1 "$md/demo_test.go" | sed -n 's/.*place in:* *\([^ ]*\).*/\1/p'); [ -z "$place" ] && place=.
 place=${place%%[^A-Za-z0-9_./-]*}; [ "$place" = "repository" ] && place=.
 [ -d "$place" ] || place=.
@@ -17,6 +17,6 @@ if (cd "$place" && go test -vet=off -count=1 -run "$runpat" . > "$md/demo_with.l
 git checkout -q -- .
 if (cd "$place" && go test -vet=off -count=1 -run "$runpat" . > "$md/demo_without.log" 2>&1); then echo "DEMO-PASS-WITHOUT(good)" >> "$res"; else echo "DEMO-FAIL-WITHOUT(bad)" >> "$res"; fi
 rm -f "$place/zz_seed_demo_test.go"
-git checkout -q -- . ; git clean -fdq -e out
+rm -rf out; git checkout -q -- . ; git clean -fdq
 echo "place=$place" >> "$res"
 cat "$res"
